@@ -1,4 +1,4 @@
-from .common import TOPO_REQUIRED, grid_plan, need_classes
+from .common import pytest_contracts_job, TOPO_REQUIRED, grid_plan, need_classes
 
 LEVEL = "exploration"
 RULE = (
@@ -10,15 +10,33 @@ ASSUMPTIONS = ["end-gradient ratios 0.05..4 carry the full claim; ratios 4..20 o
 
 
 def plan(tier, seed):
+    p_ = _plan(tier, seed)
+    if tier == "thorough":
+        p_.setdefault("jobs", []).append(pytest_contracts_job())
+    return p_
+
+
+def _plan(tier, seed):
     p = grid_plan(tier, seed, "C09")
     ntr = 1500 if tier == "quick" else 20000
     shards = 2 if tier == "quick" else 12
-    p["jobs"] = [{"name": "c09-unit-%d" % k, "module": "vmon.jobs.c09_unit", "args": {"seed": 1000 * seed + k, "trials": ntr // shards}, "timeout": 1800} for k in range(shards)]
+    from .. import cases
+
+    ladder_jobs = []
+    for topo, kw in ([("lsn", dict(s=1, fs=1)), ("ldn", dict(s=-1, fs=1))] if tier == "quick" else [("lsn", dict(s=1, fs=1)), ("ldn", dict(s=-1, fs=1)), ("cdn", dict(s=1, fs=1)), ("usn", dict(s=-1, fs=-1))]):
+        a_ = cases.tok(topo, tag="c09-nx-%s" % topo, **kw)
+        b_ = cases.tok(topo, tag="c09-2nx-%s" % topo, **kw)
+        for k in list(b_["opts"]):
+            if k.startswith("nx_"):
+                b_["opts"][k] = 2 * b_["opts"][k]
+        p["cases"] += [a_, b_]
+        ladder_jobs.append({"name": "c09-nest-" + topo, "module": "vmon.jobs.ladder", "args": {"mode": "nest_x", "cases": [a_, b_], "cls": "nx doubling"}, "timeout": 900})
+    p["jobs"] = ladder_jobs + [{"name": "c09-unit-%d" % k, "module": "vmon.jobs.c09_unit", "args": {"seed": 1000 * seed + k, "trials": ntr // shards}, "timeout": 1800} for k in range(shards)]
     return p
 
 
 def required(tier, classes, records):
     pats = [p for p in TOPO_REQUIRED if p[0] in ("lower single null", "upper single null", "connected double null", "lower disconnected double null", "upper disconnected double null")]
     pats += [(b, "^" + b.replace("(", r"\(").replace(")", r"\)") + "$") for b in ("linear", "lower-increasing", "lower-decreasing(erf)", "upper-increasing", "upper-decreasing(erf)", "both-increasing", "both-decreasing(sici)")]
-    pats += [("branch switch lower", "switch-lower"), ("branch switch upper", "switch-upper"), ("branch switch both", "switch-both")]
+    pats += [("branch switch lower", "switch-lower"), ("branch switch upper", "switch-upper"), ("branch switch both", "switch-both"), ("nx doubling of a full grid", "nx doubling")]
     return need_classes(classes, pats)
